@@ -23,7 +23,8 @@ for d in sorted(glob.glob('/verif/seeded/*/')):
         m = json.load(open(mj))
         if m.get('expect_detected') is False:
             continue
-        rows.append(('seeded-' + os.path.basename(d.rstrip('/')), m['property'], os.path.join(d, 'patch.diff')))
+        # (a few sub-agent changes break a neighbouring property rather than the one they were asked about: meta.detecting_check)
+        rows.append(('seeded-' + os.path.basename(d.rstrip('/')), m.get('detecting_check', m['property']), os.path.join(d, 'patch.diff')))
 for r in rows:
     if flt in r[0]:
         print(*r)
